@@ -11,7 +11,7 @@ from .. import env
 from ..gen import certv1 as g1
 from ..simdev.genuine import GenuineLedger, GenuineSGX
 from ..simdev.device import (MODE_BOOTLOADER, MODE_SIGNER, MODE_UI_HEARTBEAT, ALL_PATHS,
-                             pin_policy_ok)
+                             pin_policy_ok, path_to_binary)
 
 ID = "C18"
 LEVEL = "exploration"
@@ -36,7 +36,8 @@ ASSUMPTIONS = [
     "ends the command (the real tool would keep prompting)",
 ]
 FLOORS = {"quick": {"evaluations": 2500, "onboard_carried_out": 30, "onboard_refused": 400,
-                    "unlock_sent": 60, "pin_changes_sent": 60, "pubkey_files_checked": 20},
+                    "unlock_sent": 60, "pin_changes_sent": 60, "pubkey_files_checked": 20,
+                    "device_keys_with_marker_like_first_byte": 10},
           "thorough": {"evaluations": 40000, "onboard_carried_out": 400, "onboard_refused": 20000,
                        "unlock_sent": 250, "pin_changes_sent": 1000,
                        "pubkey_files_checked": 150}}
@@ -101,7 +102,25 @@ def answered_yes(script):
     return False
 
 
+def marker_like_wallet(rng, gd):
+    """every third device holds wallet keys whose coordinates begin or end like an
+    encoding marker (0x04, 0x02, 0x03, 0x00): they are keys like any other"""
+    from ..gen import keys
+    if rng.random() < 1 / 3:
+        for p in list(gd.wallet):
+            d = keys.special_scalar_k1(rng)
+            gd.wallet[p] = g1.ecdsa.SigningKey.from_secret_exponent(
+                d, curve=g1.CURVE, hashfunc=g1.hashlib.sha256)
+            gd.dev.pubkeys[path_to_binary(p)] = g1.pub65(gd.wallet[p])
+
+
 def make_device(rng, platform, mode, onboarded, echo):
+    gd, dev = make_device_(rng, platform, mode, onboarded, echo)
+    marker_like_wallet(rng, gd)
+    return gd, dev
+
+
+def make_device_(rng, platform, mode, onboarded, echo):
     if platform == "ledger":
         gd = GenuineLedger(rng, onboarded=onboarded, mode=MODES[mode], pin=b"abcd1234",
                            echo_ok=echo)
@@ -393,6 +412,8 @@ def run_cell(acc, cell, tmpdir, seed):
             return bad("pubkey-files-missing", err=repr(e))
         for p in ALL_PATHS:
             k = gd.wallet[p]
+            if g1.pub65(k)[1] in (0, 2, 3, 4):
+                acc.count("device_keys_with_marker_like_first_byte")
             if js.get(p) != g1.pub65(k).hex():
                 return bad("pubkeys-json-differs", path=p)
             # table rows: name, path, compressed key (names as in docs/protocol.md)
